@@ -118,6 +118,16 @@ CHECKS["C09"] = dict(level=MC, design="DESIGN.md section 6, C09", note=_SRH_NOTE
          "patch is assembled that each symbol the patch names reads (directly from the IR) the referent the reference "
          "cache reports.")
 
+CHECKS["C11"] = dict(level=MC, design="DESIGN.md section 6, C11 (claimed in part)", note=_SRH_NOTE + " PARTIAL CLAIM: only the "
+    "registration-order clause of C11 is decided. Independence from PYTHONHASHSEED, set iteration order and UUID draws is "
+    "NOT decided by this check (it quantifies over interpreter state rather than over values the code computes on; the "
+    "engine even fixes UUIDs and node hashing to make re-execution deterministic).",
+    technique=_SRH_TECH + "; self-composition over permutations of the registration order",
+    text="Self-composition: the same symbolic scenario is built twice over the same z3 variables and its 2-3 modifications "
+         "are registered in two different orders (every permutation that keeps the relative order of requests at the same "
+         "location). z3 decides that bytes, symbol positions, block boundaries, CFG edges, expressions, aux tables, "
+         "function tables and temporary-label names (compared exactly) are equal.")
+
 NOT_YET = "check not built yet in this round (planned, see DESIGN.md section 6)"
 
 manifest = {
